@@ -130,6 +130,17 @@ def hooked_texts(rng, n):
             k = rng.randrange(len(t))
             more.append(t[:k] + ('9' if t[k] != '9' else '8') + t[k + 1:])
             more.append(' ' + t)
+    # same length, different newline layout (a space and a newline swapped)
+    for t in out[:n // 2]:
+        i, j = t.find(' '), t.find('\n')
+        if i >= 0:
+            more.append(t[:i] + '\n' + t[i + 1:])
+        if j >= 0:
+            more.append(t[:j] + ' ' + t[j + 1:])
+        if i >= 0 and j >= 0:
+            u = list(t)
+            u[i], u[j] = u[j], u[i]
+            more.append(''.join(u))
     return out + more
 
 
@@ -398,7 +409,15 @@ def history(rec, ts, length):
             finally:
                 t.g._vt_cb = None
             continue
-        got = outcome(t.g, call)
+        if rng.random() < 0.5 and len(call[1]) > 0:
+            # a freshly created text object that is dropped right after the call (the long-lived
+            # texts of t.calls never give their address back): caches keyed by id() show here
+            fresh_text = (call[1] + call[1][:1])[:-1]
+            got = outcome(t.g, (call[0], fresh_text, call[2], call[3]))
+            del fresh_text
+            rec.count('history_calls_on_fresh_text_objects')
+        else:
+            got = outcome(t.g, call)
         rec.count('history_calls')
         compare(rec, t, call, got, mode, nontrivial=step > 0, step=step)
         if step < 6:
@@ -409,6 +428,32 @@ def history(rec, ts, length):
         rec.count('fingerprints_taken')
         if fp != fps[t.name]:
             rec.count('module_state_changed:' + t.name)
+
+
+def churn(rec, ts):
+    """Texts of equal length and different content / newline layout, each created, parsed and dropped
+    in turn in a tight loop, so that consecutive texts are likely to occupy the same address: any
+    per-module cache keyed by id(text) and/or len(text) answers with the previous text's data."""
+    for t in ts[:3]:
+        groups = {}
+        for call in t.calls:
+            if call[2] == 0 and call[3] is True and call[0] is None and len(call[1]) > 2:
+                groups.setdefault(len(call[1]), [])
+                if call not in groups[len(call[1])]:
+                    groups[len(call[1])].append(call)
+        for ln, calls in sorted(groups.items()):
+            if len(calls) < 2:
+                continue
+            for c in calls:
+                t.base(c)
+            for _ in range(3):
+                for c in calls:
+                    fresh_text = (c[1] + c[1][:1])[:-1]
+                    got = outcome(t.g, (c[0], fresh_text, c[2], c[3]))
+                    del fresh_text
+                    rec.count('churn_calls')
+                    compare(rec, t, c, got, 'churn', nontrivial=True)
+                    del got
 
 
 # -- (d) leak monitor ---------------------------------------------------------------------
@@ -687,6 +732,7 @@ def run_shard(rec):
     rec.deadline = time.time() + (75 if quick else 700)
     ts = targets(rec, quick)
     history(rec, ts, 400 if quick else 3000)
+    churn(rec, ts)
     leaks(rec, ts)
     reentrancy(rec, ts, 6 if quick else 40)
     digests = set()
